@@ -81,3 +81,16 @@ def run(ctx, rep):
     rep.floor("R23a", n, 2, "next-instance walkers")
     k = selector(fx, rep)
     rep.floor("R23b", k, 2, "min() selections in next_instance")
+    # R23c: the walkers step over an instance that is known but has no matching samples because create_sample_collection answers
+    # NoData for it; BadParameter (which aborts the walk) is reserved for handles that are not in the reader's instance list
+    b = fx.fn("DataReaderEntity", "create_sample_collection")
+    bf = FnCtx(b)
+    bp = [bb for bb, i, s in bf.aggregates("DdsError", "BadParameter")]
+    okb = False
+    for sb, ce in bf.ces.items():
+        e0 = E.strip_casts(ce.expr)
+        if E.is_call(e0, "Iterator::any") and e0[2] and E.mentions_field(e0[2][0], "instances") and not E.mentions_field(e0[2][0], "sample_list"):
+            if ce.false_target is not None and bf.only_through(bp, [(sb, ce.false_target)]):
+                okb = True
+    adder(rep, b)("R23c", "a known instance without matching samples yields NoData, never BadParameter", bool(bp) and okb,
+                  "BadParameter is not decided on self.instances: the next-instance walk aborts at an instance whose samples were all taken")
